@@ -2,9 +2,12 @@
 
 Correspondence between /repo `Expr.simplify`, `Expr.lower_once`, `Expr.lower_completely` and the Lean
 models of lean/DxModel/Termination.lean (stub rule classes), run-time validation of the generated
-class-level "may construct" table of the `_lower` methods (Generated/Lowers.lean, T1 + T3), and the
-end-to-end search: step counts of every optimizer stage, no "Optimizer does not converge", plan names
-stable across repetitions and across fresh processes with different PYTHONHASHSEED, optimize∘optimize.
+class-level "may construct" table of the `_lower` methods (Generated/Lowers.lean, T1 + T3), the tie of
+the SIMPLIFY-stage rewrite system of lean/DxModel/SimplifyMeasure.lean (trees of node kind + number of
+columns, relation `Step`, lexicographic measure `msr`) to every rule firing and every pass observed while
+optimizing the program space (T3), and the end-to-end search: step counts of every optimizer stage, no
+"Optimizer does not converge", plan names stable across repetitions and across fresh processes with
+different PYTHONHASHSEED, optimize∘optimize.
 """
 from __future__ import annotations
 
@@ -26,6 +29,11 @@ from harness.core import ROOT, Family, Failure, Support, drive, first_diff
 LEAN_MODULES = ["DxModel.Props.C19"]
 GENERATED = ["Lowers"]
 TRUSTED = [
+    "abstraction of a real expression to the tree model (c19.abstract_tree): class -> node kind (Projection/Index, Filter, "
+    "Head/Tail/Partitions/Len/Lengths, everything else an operator), width = len(expr.columns), operands = dependencies(); shared "
+    "sub-expressions are unfolded (a rewrite of a shared node is several Steps)",
+    "the tracer sees every rule firing: it wraps `_simplify_down` / `_simplify_up` of every live class and `simplify_once` "
+    "(cross-checked: every changing pass made only of in-fragment firings must decrease the measure as a whole)",
     "harness/extractors.py `Lowers`: ast scan of the `_lower` bodies (over-approximation; what it resolves is listed "
     "in the generator); validated by family lowers_observed on every `_lower` call made while lowering the program space",
     "abstraction of a `_lower` method as `Respects`: its result consists of new nodes of listed classes and copies of "
@@ -33,8 +41,32 @@ TRUSTED = [
     "expressions are identified with their names (C08) in the simplify model",
 ]
 PARTIAL = [
-    "that simplify_once never revisits an expression on real queries (no 'Optimizer does not converge') is not proven; "
-    "it is checked by the search over the vetted program space only (C19_fragment_measure of the design is not attempted)",
+    "termination of the SIMPLIFY stage is proven for the modelled fragment of rule shapes (C19_simplify_fragment_terminates: no "
+    "infinite sequence of firings; C19_simplify_converges: the loop returns a fixpoint and never reports non-convergence when every "
+    "changing pass decreases the measure) and tied to the code by checking that hypothesis on every observed firing and pass; it is "
+    "NOT a proof about the Python rule methods: for firings outside the fragment, and for queries outside the program space, that "
+    "simplify_once never revisits an expression is checked by the search only",
+    "no explicit numeric bound on the number of firings is proven (the measure is a lexicographic quadruple, order type ω⁴: a filter "
+    "pushed into both join inputs copies its predicate, so lower components may grow when a higher one drops)",
+    "rule shapes OUTSIDE the fragment — counts from one thorough run: 7316 programs of the vetted space, 18548 firings, of which 17667 "
+    "(58 rules: every `_simplify_up(Projection|Index)`, Projection/Assign/Head/Tail/Partitions/Len/Lengths/GroupbyAggregation "
+    "`_simplify_down`, filter pushdown through Elemwise/AsType/ResetIndex/Repartition/Shuffle/SetIndex/SortValues/Merge/ReadParquet, the "
+    "Filter/Filter squash, shuffles dropped below reductions, Head(SortValues), Len of IO) are Step instances with a smaller measure: "
+    "(1) or-factoring of a Filter predicate by `rewrite_filters`, any parent class: 425 firings, the measure decreases on all of them "
+    "and 361 happen to be Step shapes after abstraction (C03 owns the predicate algebra); (2) `Len(x)` -> `Len(Index(x))`: 304, measure not "
+    "decreasing (a Projection-like node appears; its inverse `Len(Index(x))` -> `Len(x)` is guarded by `_is_length_preserving`, which the tree "
+    "model does not carry); (3) `Merge._simplify_up(Filter)` splitting an And predicate, Filter(m, p & q) -> Filter(Filter(m, p), q'): 23, not "
+    "decreasing — the inverse of the Filter/Filter squash, the two shapes form a cycle in the model (C19Frag example), the real rules "
+    "are kept apart by their dependents guards only; both fire in one optimize() of `m[(m.a>1)&(m.d>20)&(m.b>1)]` (2 splits, 2 squashes, "
+    "7 passes) without looping; (4) `SetIndex._simplify_up(Head|Tail)` -> SetIndex(NFirst|NLast): 6, a new operator appears; "
+    "(5) `SortValues._simplify_up(Repartition)`: 19, swaps two operators, measure unchanged; (6) `Len(Concat)` -> sum of Len. For these, "
+    "and for passes containing them (560 of 13561 passes, 176 of them with a non-decreasing measure), convergence is covered by the search only",
+    "redundant firings of rules that are otherwise inside the fragment: Assign / AddPrefix / AddSuffix / SetIndexBlockwise / "
+    "DropDuplicates `_simplify_up(Projection)` insert a Projection that does not narrow its input when a dependent reports a column "
+    "name the frame does not have (or the same columns in another order) — 104 firings; not Steps (the measure grows by the new node), "
+    "`Projection._simplify_down` removes or squashes the Projection again in the same pass, so every such PASS still decreases the measure "
+    "(checked: all 13001 passes made of in-fragment and redundant firings); convergence here relies on the pass-level name comparison of "
+    "`Expr.simplify`, wasted work but no loop",
     "termination of lower_completely is proven for every family of `_lower` methods that respects the generated table; "
     "that the real methods do is an ast over-approximation validated on the program space, not a proof about Python",
     "determinism across processes is established by search (names for different PYTHONHASHSEED), not by proof",
@@ -43,9 +75,16 @@ EXPLANATION = (
     "Theorems: fusion passes strictly decrease a measure (loop stops); the generated may-construct relation of `_lower` "
     "has a kernel-checked decreasing rank, hence lower_completely reaches a fixpoint from every tree for every rule family "
     "respecting the table (strong normalization, copies and guards allowed); simplify returns a fixpoint on normal exit, "
-    "reports non-convergence only on a revisit, and stops on finite orbits. Tie: real simplify / lower_once / "
-    "lower_completely on stub rule classes vs the models; observed (class, new class) pairs of every real `_lower` call "
-    "inside the table. Search: per-stage step counts, name stability in-process and across PYTHONHASHSEED, optimize twice."
+    "reports non-convergence only on a revisit, and stops on finite orbits. The simplify stage as a rewrite system: 19 rule shapes "
+    "(projection below / into an operator incl. duplication into several inputs with the parent kept, filter pushdown with the "
+    "predicate substituted incl. both join inputs, Projection/Filter/operator squashing, absorption by IO nodes, Head/Tail/Partitions/Len "
+    "through blockwise operators) applied anywhere in a tree of (node kind, number of columns); every shape strictly decreases the "
+    "lexicographic measure (filter potential, column flow, projection potential, Head-like potential), hence no infinite firing sequence, "
+    "no revisit, and the simplify loop returns an idempotent fixpoint without ever reporting non-convergence. Tie: real simplify / "
+    "lower_once / lower_completely on stub rule classes vs the models; observed (class, new class) pairs of every real `_lower` call "
+    "inside the table; every real rule firing and pass while optimizing the program space abstracted to the tree model and checked by the "
+    "driver (recogniser proven sound) to be a Step with a smaller measure. Search: per-stage step counts, name stability in-process and "
+    "across PYTHONHASHSEED, optimize twice."
 )
 
 # --------------------------------------------------------------------------- stub classes
@@ -388,8 +427,321 @@ def fam_fusion_passes(ctx):
     return f
 
 
+# --------------------------------------------------------------------------- WP-N: the SIMPLIFY fragment measure (T3)
+
+# Head-like nodes of the tree model (DxModel/SimplifyMeasure.lean `Tr.blind`): one expression operand, no rule
+# depends on the width of their input, they are pushed below projections and blockwise operators
+BLIND_CLASSES = ("Head", "Tail", "Partitions", "Len", "Lengths")
+
+# Rules (method, defining class, parent class) every firing of which has to be an instance of a `Step` shape with a
+# strictly smaller measure.  "*" matches every class.  Everything not listed is observed, measured and reported
+# (family note, PARTIAL) but not required to be inside the fragment.
+FRAGMENT_RULES = [
+    ("_simplify_up", "*", "Projection"),  # (a) column projection below / into an operator, every class
+    ("_simplify_up", "*", "Index"),
+    ("_simplify_down", "Projection", ""),  # (c)/(d) Projection squash, identity Projection
+    ("_simplify_down", "GroupbyAggregationBase", ""),  # (a) without a Projection parent
+    ("_simplify_down", "Assign", ""),  # (c)
+    ("_simplify_down", "Head", ""),  # (e), (c)
+    ("_simplify_down", "Tail", ""),
+    ("_simplify_down", "Partitions", ""),  # (e), (d)
+    ("_simplify_down", "Lengths", ""),  # (d)
+    ("_simplify_down", "Len", ""),  # (d) Len through length-preserving operators (variants to-index / concat-sum are outside)
+    ("_simplify_up", "Filter", "Filter"),  # (c) Filter/Filter squash (variant or-factoring is outside)
+    ("_simplify_up", "Merge", "Filter"),  # (b) into one or both join inputs (variant and-split is outside)
+    ("_simplify_up", "Elemwise", "Filter"),  # (b) filter pushdown
+    ("_simplify_up", "AsType", "Filter"),
+    ("_simplify_up", "ResetIndex", "Filter"),
+    ("_simplify_up", "Repartition", "Filter"),
+    ("_simplify_up", "ShuffleBase", "Filter"),
+    ("_simplify_up", "SetIndex", "Filter"),
+    ("_simplify_up", "SortValues", "Filter"),
+    ("_simplify_up", "ReadParquet", "Filter"),  # (d) predicate absorbed by the reader
+    ("_simplify_up", "SortValues", "Head"),  # (d) Head(SortValues) -> NFirst
+    ("_simplify_up", "SortValues", "Tail"),
+    ("_simplify_up", "FromPandas", "Len"),  # (d) Len -> Literal
+    ("_simplify_up", "FromPandas", "Lengths"),
+    ("_simplify_up", "ReadParquet", "Len"),
+    ("_simplify_up", "ReadParquet", "Lengths"),
+    ("_simplify_up", "Head", "Repartition"),  # (d) Repartition(Head(x), 1) -> Head(x)
+    ("_simplify_up", "Tail", "Repartition"),
+]
+# `ShuffleBase._simplify_up` under a reduction drops the shuffle: (c) opSquash / lenPass, any of these parents
+_SHUFFLE_DROP_PARENTS = ("Unique", "DropDuplicates", "Sum", "Prod", "Max", "Any", "All", "Min", "Len", "Size", "NBytes", "Mean",
+                         "Count", "Mode", "NLargest", "NSmallest", "ValueCounts", "MemoryUsage")
+FRAGMENT_RULES += [("_simplify_up", "ShuffleBase", p) for p in _SHUFFLE_DROP_PARENTS]
+
+
+# Variants of a rule method that are NOT claimed to be inside the fragment (recognised on the real objects):
+#   or-factoring  Filter._simplify_up, any parent: `rewrite_filters` pulls common AND-components out of an OR (C03's predicate
+#                 algebra; the predicate gets smaller, which the measure sees, but the shape is not one of `Step`)
+#   and-split     Merge._simplify_up(Filter) with an And predicate: Filter(m, p & q) -> Filter(Filter(m, p), q') — the inverse of the
+#                 Filter/Filter squash; no measure decreases along both, the real rules are kept apart by their guards only
+#   to-index      Len(x) -> Len(Index(x)) for a frame that is not length preserving (its inverse Len(Index(x)) -> Len(x) needs
+#                 `_is_length_preserving`; the tree model has no such flag)
+#   concat-sum    Len(Concat(a, b)) -> Len(a) + Len(b): new Add nodes
+def rule_variant(method, self, parent, out):
+    import dask_expr._expr as E
+    from dask_expr._merge import Merge
+    from dask_expr._reductions import Len
+
+    if method == "_simplify_up" and isinstance(self, E.Filter):
+        if isinstance(self.predicate, E.Or) and E.rewrite_filters(self.predicate)._name != self.predicate._name:
+            return "or-factoring"
+    if method == "_simplify_up" and isinstance(self, Merge) and isinstance(parent, E.Filter) and isinstance(parent.predicate, E.And):
+        return "and-split"
+    if method == "_simplify_down" and type(self) is Len:
+        if not isinstance(out, Len):
+            return "concat-sum"
+        if isinstance(out.frame, E.Index) and not isinstance(self.frame, E.Index):
+            return "to-index"
+    return ""
+
+
+def fmt_rule(key):
+    from harness.props import c01
+
+    return c01._fmt_key(key[:4]) + (f" ({key[4]})" if key[4] else "")
+
+
+def in_fragment(key):
+    method, defcls, _selfcls, parentcls, variant = key
+    return variant == "" and any(m == method and d in ("*", defcls) and p == parentcls for m, d, p in FRAGMENT_RULES)
+
+
+def _width(e):
+    try:
+        return len(e.columns)
+    except Exception:  # noqa: BLE001
+        return 0
+
+
+def abstract_tree(e, memo):
+    """real expression -> preorder tokens of the Lean tree model: node kind + number of columns only"""
+    k = e._name
+    if k in memo:
+        return memo[k]
+    deps = e.dependencies()
+    n = type(e).__name__
+    w = _width(e)
+    if n in ("Projection", "Index") and len(deps) == 1:
+        r = (f"P{w}",) + abstract_tree(deps[0], memo)
+    elif n == "Filter" and len(deps) == 2:
+        r = (f"F{w}",) + abstract_tree(deps[0], memo) + abstract_tree(deps[1], memo)
+    elif n in BLIND_CLASSES and len(deps) == 1:
+        r = (f"B{w}",) + abstract_tree(deps[0], memo)
+    else:
+        r = (f"O{w}/{len(deps)}",)
+        for d in deps:
+            r += abstract_tree(d, memo)
+    memo[k] = r
+    return r
+
+
+class SimplifyTracer:
+    """wraps `_simplify_down` / `_simplify_up` of every live class (the class list of c01.FiringTracer) and
+    `Expr.simplify_once`: records every outermost firing as (rule key, expression before, expression after) and every
+    top-level pass that changes the expression, with the firings that happened inside it"""
+
+    def __init__(self):
+        self.firings = []  # (key, before, after)
+        self.passes = []  # (before, after, [indices into firings])
+        self._saved = []
+        self._depth = 0
+        self._sdepth = 0
+        self._pass_start = 0
+
+    def __enter__(self):
+        from dask_expr import _core
+
+        from harness.props import c01
+
+        tr = self
+        for cls in c01.all_expr_classes():
+            for m in ("_simplify_down", "_simplify_up"):
+                if m not in cls.__dict__:
+                    continue
+                orig = cls.__dict__[m]
+
+                def wrapper(self, *args, _orig=orig, _m=m, _def=cls.__name__):
+                    tr._depth += 1
+                    try:
+                        out = _orig(self, *args)
+                    finally:
+                        tr._depth -= 1
+                    if tr._depth == 0:
+                        parent = args[0] if _m.endswith("_up") else None
+                        ref = parent if parent is not None else self
+                        if isinstance(out, _core.Expr) and out._name != ref._name:
+                            key = (_m, _def, type(self).__name__, type(parent).__name__ if parent is not None else "",
+                                   rule_variant(_m, self, parent, out))
+                            tr.firings.append((key, ref, out))
+                    return out
+
+                self._saved.append((cls, m, orig))
+                setattr(cls, m, wrapper)
+        orig_s = _core.Expr.simplify_once
+
+        def s_once(self, dependents, simplified):
+            if tr._sdepth == 0:
+                tr._pass_start = len(tr.firings)
+            tr._sdepth += 1
+            try:
+                out = orig_s(self, dependents=dependents, simplified=simplified)
+            finally:
+                tr._sdepth -= 1
+            if tr._sdepth == 0 and tr._depth == 0 and isinstance(out, _core.Expr) and out._name != self._name:
+                tr.passes.append((self, out, list(range(tr._pass_start, len(tr.firings)))))
+            return out
+
+        self._saved.append((_core.Expr, "simplify_once", orig_s))
+        _core.Expr.simplify_once = s_once
+        return self
+
+    def __exit__(self, *a):
+        for cls, m, orig in self._saved:
+            setattr(cls, m, orig)
+        self._saved = []
+
+
+def _interaction_programs(ctx):
+    """filters over joins: And predicates (Merge._simplify_up splits them — the inverse of the Filter/Filter squash), predicates on
+    the join key (pushed into both inputs), conjuncts shared between two consumers, filters of filters"""
+    import dask_expr as dx
+
+    from harness import programs
+
+    def shapes(m):
+        return {
+            "and2": lambda: m[(m.a > 1) & (m.d > 20)],
+            "and3": lambda: m[(m.a > 1) & (m.d > 20) & (m.b > 1)],
+            "key_both_sides": lambda: m[m.b > 1],
+            "key_and_left": lambda: m[(m.b > 1) & (m.a > 1)],
+            "shared_conjunct": lambda: dx.concat([m[m.a > 1], m[(m.a > 1) & (m.d > 20)]]),
+            "shared_conjunct_sum": lambda: m[m.a > 1].a.sum() + m[(m.a > 1) & (m.d > 20)].d.sum(),
+            "filter_of_filter": lambda: (lambda f: f[(f.d > 20) & (f.b > 1)])(m[m.a > 1]),
+            "cross_predicate": lambda: m[(m.a > 1) & (m.a + m.d > 20)],
+            "filter_proj_shared": lambda: m[(m.a > 1) & (m.d > 20)][["a"]].a + m[m.a > 1].a,
+        }
+
+    out = []
+    for how in (("inner",) if ctx.quick else ("inner", "left", "right", "outer")):
+        t = programs.dask_env()
+        m = t["L"].merge(t["R"], on="b", how=how)
+        out += [(f"j:{how}/{k}", fn) for k, fn in shapes(m).items()]
+    return out
+
+
+def _measure_programs(ctx):
+    """[(label, thunk -> collection)]: a seeded slice of the vetted program space (all of it, strided, in the thorough
+    tier), c01's must-run programs (shapes of fixed defects, rule interactions, parquet), the fusion corpus"""
+    from harness import programs
+    from harness.props import c01, c14
+
+    progs, idx = _program_slice(ctx, 150)
+    if not ctx.quick:
+        idx = sorted(ctx.rng.sample(idx, min(len(idx), 7000)))  # (a stride would only ever meet some of the terminals)
+    out = [(progs[i].name, (lambda p=progs[i]: p.fn(programs.dask_env()))) for i in idx]
+    out += [(p.name, (lambda p=p: p.fn(programs.dask_env()))) for p in c01.extra_programs()]
+    out += [("q:" + name, fn) for name, fn in c14.real_queries() if (not ctx.quick) or "/n3" in name]
+    return out + _interaction_programs(ctx)
+
+
+def fam_simplify_measure(ctx):
+    """T3 for C19_simplify_step_decreases / C19_simplify_converges: every rule firing and every pass observed while
+    simplifying the program space, abstracted to the tree model (kind + width), is sent to the driver: is it an instance of
+    a `Step` shape (`stepB`, proven sound), does `msr` strictly decrease (`ltQ`)."""
+    from harness.props import c01
+
+    f = Family("simplify_measure[every _simplify_up/_simplify_down firing and every simplify_once pass: Step shape + measure decreases]")
+    uniq = {}  # (kind, rule, before, after) -> [count, first program]
+    pass_firings = {}
+    nprog = 0
+    todo = _measure_programs(ctx)
+    with SimplifyTracer() as tr:
+        for label, thunk in todo:
+            tr.firings, tr.passes = [], []
+            tr._depth = tr._sdepth = 0
+            try:
+                r = thunk()  # (`len`, `head` … optimize and compute eagerly: their firings are traced as well)
+                if hasattr(r, "expr"):
+                    r.expr.optimize(fuse=False)
+                nprog += 1
+            except Exception:  # noqa: BLE001  refusals are not this property's business
+                continue
+            memo = {}
+            fkeys = []
+            for key, ref, out in tr.firings:
+                k = ("firing", key, ",".join(abstract_tree(ref, memo)), ",".join(abstract_tree(out, memo)))
+                fkeys.append(k)
+                ent = uniq.setdefault(k, [0, label])
+                ent[0] += 1
+            for before, after, idxs in tr.passes:
+                k = ("pass", None, ",".join(abstract_tree(before, memo)), ",".join(abstract_tree(after, memo)))
+                ent = uniq.setdefault(k, [0, label])
+                ent[0] += 1
+                pass_firings.setdefault(k, set()).update(fkeys[i] for i in idxs)
+    keys = list(uniq)
+    answers = drive([f"c19 step before={k[2]} after={k[3]}" for k in keys])
+    parsed = {}
+    for k, a in zip(keys, answers):
+        m = re.fullmatch(r"STEP (\S+) DEC ([01]) NOOP ([01])", a)
+        parsed[k] = (m.group(1), m.group(2) == "1", m.group(3) == "1") if m else ("BAD:" + a, False, False)
+    inside = collections.Counter()  # rule -> firings that are Step instances
+    shapes = collections.Counter()
+    noop = collections.Counter()
+    outside = collections.defaultdict(collections.Counter)  # rule -> {"step"/"dec"/"nondec": n}
+    nondec_examples = {}
+    inputs, code, model = [], [], []
+    ok_firing = {}
+    for k in keys:
+        if k[0] != "firing":
+            continue
+        rule = fmt_rule(k[1])
+        why, dec, isnoop = parsed[k]
+        n, label = uniq[k]
+        step = why != "none" and not why.startswith("BAD")
+        ok_firing[k] = (step and dec) or isnoop
+        if step:
+            shapes[why.split("@")[0]] += n
+        if in_fragment(k[1]):
+            if isnoop and not step:
+                noop[rule] += n
+            else:
+                inside[rule] += n
+            inputs.append({"rule": rule, "before": k[2], "after": k[3], "program": label, "firings": n})
+            code.append("fragment step, measure decreases" if not isnoop or step else "redundant projection (undone by Projection._simplify_down)")
+            model.append(code[-1] if ok_firing[k] else f"STEP {why} DEC {int(dec)}")
+        else:
+            outside[rule]["step" if step and dec else ("dec" if dec else "nondec")] += n
+            if not dec:
+                nondec_examples.setdefault(rule, {"program": label, "before": k[2], "after": k[3]})
+    npass = collections.Counter()
+    for k in keys:
+        if k[0] != "pass":
+            continue
+        why, dec, _ = parsed[k]
+        n, label = uniq[k]
+        if all(ok_firing[fk] for fk in pass_firings.get(k, ())):
+            npass["inside"] += n
+            inputs.append({"pass": "simplify_once", "before": k[2], "after": k[3], "program": label, "passes": n})
+            code.append("measure decreases over the pass")
+            model.append(code[-1] if dec else f"DEC 0 ({why})")
+        else:
+            npass["with_outside_rules_dec" if dec else "with_outside_rules_nondec"] += n
+    f.compare(inputs, code, model)
+    f.inside, f.outside, f.noop, f.nondec_examples = inside, outside, noop, nondec_examples
+    out_txt = "; ".join(f"{r}: " + "/".join(f"{v} {c}" for c, v in sorted(cs.items())) for r, cs in sorted(outside.items()))
+    f.note = (f"{nprog} programs, {sum(n for k, (n, _) in uniq.items() if k[0] == 'firing')} firings ({sum(1 for k in keys if k[0] == 'firing')} distinct "
+              f"shapes); inside the fragment: {sum(inside.values())} firings of {len(inside)} rules, Step shapes hit: {dict(shapes)}; redundant "
+              f"non-narrowing projections inserted (not Steps, measure grows, removed again by Projection._simplify_down): {dict(noop)}; "
+              f"rules outside the fragment (firings: step = is a Step shape anyway, dec = measure decreases, nondec = does not): {out_txt}; "
+              f"passes: {dict(npass)}")
+    return f
+
+
 def families(ctx):
-    return [fam_simplify_loop, fam_lower_loop, fam_lowers_observed, fam_fusion_passes]
+    return [fam_simplify_loop, fam_lower_loop, fam_lowers_observed, fam_fusion_passes, fam_simplify_measure]
 
 
 # --------------------------------------------------------------------------- end-to-end support / search
